@@ -3,7 +3,9 @@
 //! One case = one history of tokens through ONE service instance (grammar: see
 //! `lean/ActixModel/Drv/C11.lean`).  The application is fixed (`build_app`, mirrored by
 //! `ActixModel.ReqPool.theCfg`): nested scopes with per-scope/per-resource app data, named and
-//! unnamed resources, a guarded pair, an app-level middleware and a dumping default service.
+//! unnamed resources, a guarded pair, an app-level middleware (which attaches a per-tenant data
+//! container with `ServiceRequest::add_data_container` when the `x-t` header asks for it, whether or
+//! not any route matches) and a dumping default service.
 //! Every handler/middleware dumps everything reachable from `HttpRequest`.
 //!
 //! Oracles (none of them uses the model):
@@ -36,7 +38,7 @@ use super::Prop;
 use crate::common::{block_on_system, CaseResult, Ctx, Rng};
 
 const RULE: &str = "case = history of tokens through one service instance of a fixed app (nested scopes with scoped \
-app_data, named/unnamed/guarded resources, default service, app-level middleware): R = request (method, uri, version, \
+app_data, named/unnamed/guarded resources, default service, app-level middleware that attaches a per-tenant data container on header x-t before routing): R = request (method, uri, version, \
 peer (set, unset, or never mentioned by the builder), headers, request-level extensions; handler actions: insert typed extensions, stash clones, never complete, park while later requests run), \
 D/V/E/C = drop / dump / extend / clone a stashed handle, G = resume a parked handler, X = drop the service; histories of 1..40 tokens plus long ones \
 with >128 simultaneously live requests; a case is non-trivial if at least one request was served from a recycled \
@@ -65,6 +67,8 @@ struct E3(u32, #[allow(dead_code)] Alive);
 struct DA(u32, #[allow(dead_code)] Option<Alive>);
 struct DB(u32);
 struct DC(u32);
+/// per-tenant marker attached by the app-level middleware with `ServiceRequest::add_data_container`
+struct DT(u32);
 pub struct ConnProbe(pub u32, #[allow(dead_code)] Alive);
 
 #[derive(Clone, Debug, PartialEq)]
@@ -132,7 +136,12 @@ fn dump(r: &HttpRequest) -> String {
     let ci = r.connection_info().host().to_owned();
     let ext = r.extensions();
     let xs = [ext.get::<E1>().map(|e| e.0), ext.get::<E2>().map(|e| e.0), ext.get::<E3>().map(|e| e.0)];
-    let ds = [r.app_data::<DA>().map(|d| d.0), r.app_data::<DB>().map(|d| d.0), r.app_data::<DC>().map(|d| d.0)];
+    let ds = [
+        r.app_data::<DA>().map(|d| d.0),
+        r.app_data::<DB>().map(|d| d.0),
+        r.app_data::<DC>().map(|d| d.0),
+        r.app_data::<DT>().map(|d| d.0),
+    ];
     format!(
         "m={};u={};v={};p={};H={}/n{};P={};U={};X={};c={};D={};ci={};n={};t={}",
         r.method(),
@@ -207,8 +216,16 @@ fn build_app(
     let mw = sh.clone();
     App::new()
         .app_data(DA(0, Some(Alive::new(&sh.app_alive))))
-        .wrap_fn(move |req: ServiceRequest, srv| {
+        .wrap_fn(move |mut req: ServiceRequest, srv| {
             let sh = mw.clone();
+            // per-tenant data keyed on a header, attached before routing (public API); the
+            // request may then match a route or none at all
+            let tenant = req.headers().get("x-t").and_then(|v| v.to_str().ok()).and_then(|v| v.parse::<u32>().ok());
+            if let Some(t) = tenant {
+                let mut ext = actix_web::dev::Extensions::new();
+                ext.insert(DT(t));
+                req.add_data_container(Rc::new(ext));
+            }
             sh.dumps.borrow_mut().push(dump(req.request()));
             let fut = srv.call(req);
             async move {
@@ -978,6 +995,10 @@ fn gen_req(rng: &mut Rng, slots: u32) -> String {
     let mut hdrs = Vec::new();
     for _ in 0..rng.below(4) {
         hdrs.push(format!("{}={}", rng.pick(&["x-a", "x-b", "x-g", "x-g", "x-z", "host"]), rng.pick(&["1", "2", "v"])));
+    }
+    // tenant header: the app-level middleware attaches a data container (any route outcome)
+    if rng.chance(1, 4) {
+        hdrs.push(format!("x-t={}", rng.pick(&["5", "6", "v"])));
     }
     let mut xd = Vec::new();
     if rng.chance(1, 5) {
